@@ -587,6 +587,19 @@ class Interp(object):
         return {"new": self._reg(new), "of": self.U.index(d), "cards_before": before,
                 "cards_after": cards(new), "cards_original": cards(d)}
 
+    def op_add_raising_rule(self, klass="property", names=("c",)):
+        """Fault: the application registers a default validation rule that cannot deal with
+        some objects (it raises for the given names).  Constructors, savers and loaders run the
+        default rules; what they were doing must not be left half done."""
+        from odml.validation import Validation
+        bad = set(names)
+
+        def simkit_raising_rule(obj):
+            if getattr(obj, "name", None) in bad:
+                raise RuntimeError("simkit: a rule of the application cannot handle %r" % (obj.name,))
+            return iter(())
+        Validation.register_handler(klass, simkit_raising_rule)
+
     def op_reseed(self, k=0):
         """The application seeds the random module for purposes of its own (a reproducible
         experiment): an event of the environment, not of the library."""
